@@ -47,7 +47,7 @@ def clause_props(K, clause, cfg):
     elif clause.startswith(("T.", "N.")):
         out = set(K.tprops)
     elif clause.startswith("G."):
-        out = {"C07"}
+        out = {"C07"} if K.guard_relevant else set()
     elif clause.startswith("F."):
         out = set(K.fprops)
     if mode in GUARDED and clause[:2] in ("C.", "S.", "E.", "V.", "R.") and K.guard_relevant:
